@@ -1147,7 +1147,7 @@ impl<'a, 'b> GeneratorState<'a> {
                         }
                     };
                     self.generate_condition(condition, pos, false, &cont_label, false)?;
-                    self.loops.last_mut().unwrap().2 = true;
+                    self.mark_continue_label_used(&cont_label);
                 }
                 _ => {
                     self.generate_condition(condition, pos, true, &ifend_label, false)?;
